@@ -103,6 +103,9 @@ instance {B} : NFb B cur := ⟨fun σ _ h => by simp at h⟩
 instance : Mono advance := ⟨fun σ a σ' h => by simp at h; rw [← h]; exact adv_len_le σ⟩
 instance {B} : NFb B advance := ⟨fun σ _ h => by simp at h⟩
 instance {α} (p : Nat) : Mono (fail p : P α) := ⟨fun σ a σ' h => by simp at h⟩
+instance {α} (a : Bool) (p : Nat) : Mono (failAt a p : P α) := ⟨fun σ x σ' h => by simp at h⟩
+instance {α} (a : Bool) (p : Nat) : Strict (failAt a p : P α) := ⟨fun σ x σ' h => by simp at h⟩
+instance {α} {B} (a : Bool) (p : Nat) : NFb B (failAt a p : P α) := ⟨fun σ _ h => by simp at h⟩
 instance {α} (p : Nat) : Strict (fail p : P α) := ⟨fun σ a σ' h => by simp at h⟩
 instance {α} {B} (p : Nat) : NFb B (fail p : P α) := ⟨fun σ _ h => by simp at h⟩
 instance {α} : Mono (unexpected : P α) := ⟨fun σ a σ' h => by simp at h⟩
@@ -527,8 +530,8 @@ instance {B} : NFb B parseDirectiveDefinition := by unfold parseDirectiveDefinit
 
 instance : Mono keywordToken := by unfold keywordToken; infer_instance
 instance {B} : NFb B keywordToken := by unfold keywordToken; infer_instance
-instance (kw : Token) : Strict (dispatchKeyword kw) := by unfold dispatchKeyword; infer_instance
-instance {B} (kw : Token) : NFb B (dispatchKeyword kw) := by unfold dispatchKeyword; infer_instance
+instance (a : Bool) (kw : Token) : Strict (dispatchKeyword a kw) := by unfold dispatchKeyword; infer_instance
+instance {B} (a : Bool) (kw : Token) : NFb B (dispatchKeyword a kw) := by unfold dispatchKeyword; infer_instance
 instance : Strict parseTypeSystemDefinition := by unfold parseTypeSystemDefinition; infer_instance
 instance {B} : NFb B parseTypeSystemDefinition := by unfold parseTypeSystemDefinition; infer_instance
 
